@@ -39,6 +39,33 @@ def gen_cases(rng, tier):
             yield conn_case(B, 3, segs, scripts, rs, ws, rng.choice([0, 1]), stop_at=stop), ["shutdown", "idle" if idle else "eof"]
         yield conn_case(B, 3, segs, scripts, rs, ws, 1, stop_at=0), ["shutdown", "never"]
     yield from wg_cases(rng, tier)
+    yield from clone_shutdown_cases(rng, tier)
+
+
+_spec13 = importlib.util.spec_from_file_location("c13", os.path.join(os.path.dirname(__file__), "C13.py"))
+C13 = importlib.util.module_from_spec(_spec13)
+_spec13.loader.exec_module(C13)
+
+
+def clone_shutdown_cases(rng, tier):
+    """several clones of one runner, shut down separately: a clone's shutdown future completes exactly when none of ITS tokens is alive
+    (idle connections end at once, a token still in the caller's hands or a request in flight keeps it pending), whatever the other
+    clones do; the harness polls every such future after every step and requires the wake-up when its last token goes"""
+    from fvgen import case
+    for _ in range(60 if tier == "quick" else 3000):
+        maxc = rng.choice([2, 3, 4])
+        ops, n = [], 0
+        for _ in range(rng.randrange(2, maxc + 1)):
+            ops += [1, rng.choice([0, 1, 2]), 2, n]
+            ops += rng.choice([[], [5, n], [8, n], [9, n]])
+            n += 1
+        for cl in rng.sample([1, 2], rng.choice([1, 2])):
+            ops += [7, cl]
+            for i in rng.sample(range(n), rng.randrange(0, n + 1)):
+                ops += [3, i]
+        for i in range(n):
+            ops += [3, i]
+        yield case("tok_run", [maxc], ops), ["clone-shutdown"]
 
 
 def wg_cases(rng, tier):
@@ -76,7 +103,7 @@ def nontrivial(line, tags):
 
 
 def min_classes(tier):
-    return {"shutdown": 1000, "idle": 300, "wg": 150, "wg-last-in-window": 60, "wg-race": 3}
+    return {"shutdown": 1000, "idle": 300, "wg": 150, "wg-last-in-window": 60, "wg-race": 3, "clone-shutdown": 60}
 
 
 def oracle(line, impl_line):
@@ -84,6 +111,10 @@ def oracle(line, impl_line):
     o = parse_out(impl_line)
     if o is None or o[0] == [18446744073710440504]:
         return "crashed or panicked"
+    if mode == "tok_run":
+        v = C13.oracle(line, impl_line)
+        return ("a clone's shutdown future was ready while one of its tokens lived, pending (or not woken) after its last token had gone, or the "
+                "token history itself is wrong") if v is not True and "crashed" in str(v) else v
     if mode == "wg_race":
         return True if o == [[0]] else ("a wake-up was lost in a real two-thread race: the shutdown future returned Pending, the last token was "
                                          "dropped, and the waker it registered was never woken")
